@@ -3,6 +3,7 @@ From Coq Require Import List Arith ZArith Bool.
 From MM Require Import lib.ListSet lib.Values model.Heap model.Elig model.SearchParams model.SearchDefs model.Search
   gen.Gen_Search proofs.GroupSpecs proofs.SearchBridge proofs.ExhaustiveProofs proofs.GreedyProofs proofs.ConstraintProofs.
 Import ListNotations.
+From MM Require Import gen.Gen_HeapDict gen.Gen_Exhaustive proofs.ExhaustiveBridge.
 
 (* exhaustive search: sizes inside the user ranges, geo-count ratio admitted by the tolerance,
    volume ratio, treatment share and required budget inside their ranges (each exactly as the code
@@ -79,3 +80,20 @@ Print Assumptions C02_treatment_sizes_inclusive.
 Print Assumptions C02_control_sizes_inclusive.
 Print Assumptions C02_unspecified_constraints_are_free.
 Print Assumptions C02_generated_within.
+
+(* stated on the Gallina regenerated on this run from exhaustive_search itself (gen/Gen_Exhaustive.v) *)
+Theorem C02_translated_exhaustive_search_constraints :
+  forall (V K : Type) (O : vops V) (ltk : K -> K -> bool) (es : list elig) (par : spar V)
+         (shareS optB : set -> V) (bud : set -> set -> V) (score0 : set -> set -> K) (replace_inv : K -> V -> K) d,
+    In d (dd_get (gen_exhaustive_search O ltk (assignments_of es) par shareS optB bud score0 replace_inv) 0%Z) ->
+    let T := fst (des_groups d) in let C := snd (des_groups d) in
+    in_zrange (p_treatment_geos_range par) (zlen T) /\
+    in_zrange (p_control_geos_range par) (zlen C) /\
+    ratio_ok O par (zlen T) (zlen C) = true /\
+    vol_out O par shareS T C = false /\
+    share_out O par shareS T = false /\
+    budget_out O par (bud T C) = false.
+Proof.
+  intros. eapply exhaustive_constraints. subst T C. rewrite <- surjective_pairing. eapply gen_exhaustive_in; eassumption.
+Qed.
+Print Assumptions C02_translated_exhaustive_search_constraints.
